@@ -158,6 +158,12 @@ EXT_RAISES: dict[str, tuple[str, ...]] = {
     "queue.PriorityQueue.put_nowait": ("queue.Full",),
     "queue.Queue.get_nowait": ("queue.Empty",),
     "queue.PriorityQueue.get_nowait": ("queue.Empty",),
+    "asyncio.queues.Queue.put_nowait": ("asyncio.queues.QueueFull",),
+    "asyncio.queues.PriorityQueue.put_nowait": ("asyncio.queues.QueueFull",),
+    "asyncio.queues.LifoQueue.put_nowait": ("asyncio.queues.QueueFull",),
+    "asyncio.queues.Queue.get_nowait": ("asyncio.queues.QueueEmpty",),
+    "asyncio.queues.PriorityQueue.get_nowait": ("asyncio.queues.QueueEmpty",),
+    "asyncio.queues.LifoQueue.get_nowait": ("asyncio.queues.QueueEmpty",),
     "asyncio.tasks.wait_for": ("builtins.TimeoutError",),
     "asyncio.wait_for": ("builtins.TimeoutError",),
     "asyncio.timeouts.timeout": ("builtins.TimeoutError",),
